@@ -10,9 +10,6 @@ def finding(props, rule, key, what, sig=None, n=None):
     F.append(e)
 
 # ---- engine M (option modes) -----------------------------------------------------------
-finding(["C07","C06"], "M2", "tensor.(StdEng).*Between*[unsafe*",
-        "MinBetween/MaxBetween(+Scalar) with UseUnsafe(): the result tensor is created before the mode switch, so the unsafe case is unreachable and the call panics \"Unreachable\" (MinBetween(a,b,UseUnsafe()))",
-        "unsafe mode returns nothing (nil), want the first tensor operand; reaches panic(\"Unreachable\")", 34)
 finding(["C07","C06"], "M2", "tensor.(StdEng).*[incr,*one-element]",
         "E.<Op>Incr scalar-scalar arm computes into operand a before adding: Add([2],[3],WithIncr([10])) leaves a=[5]",
         "writes operand A, which is not the destination of incr mode", 37)
@@ -85,6 +82,7 @@ finding(["C14"], "F1", "tensor.numpyDtypes[Int32]", "GOARCH=386: Int32 is writte
 finding(["C14"], "F1", "tensor.numpyDtypes[Uint32]", "GOARCH=386: Uint32 is written as u4, which the reader maps to Uint", "Uint32->u4->Uint", 43)
 
 FIXED = [
+ {"property":"C07","commit":"abfb221","rule":"M2","key":"tensor.(StdEng).*Between*[unsafe*","what":"fixed: property=C07 abfb221 MinBetween/MaxBetween(+Scalar) with UseUnsafe(): the result tensor was created before the mode switch, so the unsafe case was unreachable and the call panicked \"Unreachable\" (DESIGN finding 34)"},
  {"property":"C19","commit":"393a6d7","rule":"O8","key":"tensor.(*Dense).ShallowClone#store1","what":"fixed: property=C19 393a6d7 ShallowClone shared old (and transposeWith) with the source: s := a.ShallowClone(); s.UT(); a.UT() put one slice in the pool twice (DESIGN finding 33)"},
  {"property":"C12","commit":"06dec87","rule":"P3","key":"tensor.(StdEng).Map","what":"fixed: property=C12 06dec87 StdEng.Map with a caller-supplied reuse tensor mapped over reuse's previous contents: Apply(x2, WithReuse([10,20,30,40])) on [1 2 3 4] = [20 40 60 80] (DESIGN finding 22, reuse part; the incr part stays a known finding)"},
  {"property":"C10","commit":"bde2a07","rule":"L1","key":"tensor.(StdEng).denseRepeat@fastCopyDenseRepeat(, tensor.(StdEng).denseRepeat@copyDenseSliced(","what":"fixed: property=C10 bde2a07 denseRepeat block-copied from the operand's raw storage without consulting its layout: Repeat(a[:,1:3],1,2) was wrong (DESIGN finding 32)"},
